@@ -76,19 +76,19 @@ def run(ctx):
     binp = ctx.build("truncate")
     if ctx.quick:
         mc(ctx, False)
-        gen(ctx, binp, 199, [ctx.seed % 199, (ctx.seed + 77) % 199])
+        gen(ctx, binp, 817, [(ctx.seed * 7) % 817, (ctx.seed * 7 + 77) % 817, (ctx.seed * 7 + 401) % 817])   # 817 = 43 * 19
         rec(ctx, binp, 5000, 4)
     else:
         mc(ctx, True)
-        gen(ctx, binp, 61, list(range(ctx.seed % 61, ctx.seed % 61 + 16)))
+        gen(ctx, binp, 301, [(ctx.seed + 19 * k) % 301 for k in range(16)])   # 301 = 43 * 7
         rec(ctx, binp, 40000, 16)
     ctx.assumptions += [
         "packed lengths are measured with the real Pack (its fidelity is property C01/C04/C08)",
         "'fits' = the reply packed with compression enabled is <= max(size,512)",
         "replies carrying a TSIG record are outside the statement",
     ]
-    return ctx.finish(rule="cases: all replies with <=2 answer, <=1 authority, <=2 additional records over 5 record shapes x OPT "
-                      "none/bare/with options at every position x TC x Compress x size selectors {0,511,512,513,65535, packed length of "
+    return ctx.finish(rule="cases: all replies with <=2 answer, <=1 authority, <=2 additional records over 6 record shapes x question section {one, none, two, one of 181 octets} x OPT "
+                      "none/bare/with options/with 300 octets of padding at every position x TC x Compress x size selectors {0,511,512,513,65535, packed length of "
                       "every prefix -1/0/+1, uncompressed length -1/0/+1} (sharded sample per run), plus random replies over 23 RR types. "
                       "non-trivial = at least one record was cut; distinct by (shape, size)")
 
